@@ -16,6 +16,8 @@ META = dict(
     required_hits=["forward_sum", "exact_inverse", "expanded_coefficients", "expanded_product_orders", "coupling_reversion", "mass_inverse"],
     max_inconclusive_frac=0.02,
 )
+META["level_text"] += " The mass decoupling is also observed as applied: msbar_masses.evolve exactly on a matching scale (ratio != 1) up and back down, for alpha_s scaled by lambda in {1,1/2,1/4,1/8}; up x down - 1 must fall at least like lambda^(n-0.3) at order n."
+META["required_hits"] = list(META["required_hits"]) + ["mass_roundtrip_applied"]
 
 
 def _neumann(A, n):
@@ -212,4 +214,58 @@ def run(ck):
             ck.violation("C22/mass-decoupling/inverse", f"mass decoupling up x down != 1 through a^3 for nf={nf} (residual {dev:.2e})", dict(nf=nf, up=up, down=dn, seed=ck.seed))
         else:
             ck.ok()
-    ck.note(worst_expanded_coeff_dev_rel=worst)
+    # mass decoupling as applied by msbar_masses.evolve: exactly on a matching scale, going up and coming
+    # back down must compose to the identity through the implemented order, i.e. up x down - 1 = O(a_s^n)
+    # at order n; measured as a slope in a scale factor lambda of alpha_s (zero-length segments: matching only)
+    import warnings
+
+    from ..oracles import coupling_path as cp
+
+    rng = ck.rng
+    lams = [1.0, 0.5, 0.25, 0.125]
+    margin = np.inf
+    for rep in range(ck.n(2, 20)):
+        for nf in (3, 4, 5):
+            for n in (2, 3, 4):
+                m = np.array([1.27, 4.18, 163.0]) * np.exp(rng.uniform(-0.08, 0.08, 3))
+                ratios = np.exp(rng.uniform(np.log(0.5), np.log(2.0), 3))
+                ratios[nf - 3] = float(rng.choice([0.5, 0.7, 1.6, 2.0]))  # L != 0 at the wall that is crossed
+                method = str(rng.choice(["exact", "expanded"]))
+                wall = float(m[nf - 3] ** 2 * ratios[nf - 3])
+                pts = []
+                try:
+                    for lam in lams:
+                        with warnings.catch_warnings():
+                            warnings.simplefilter("ignore")
+                            sc = cp.make_couplings(0.118 * lam, 0.007496, 91.2, 5, (n, 0), method, False, (m**2).tolist(), [1.0, 1.0, 1.0], "MSBAR")
+                            up = float(mm.evolve(1.0, wall, sc, ratios.tolist(), 1.0, wall, nf_ref=nf, nf_to=nf + 1))
+                            dn = float(mm.evolve(1.0, wall, sc, ratios.tolist(), 1.0, wall, nf_ref=nf + 1, nf_to=nf))
+                        pts.append((lam, abs(up * dn - 1.0), up, dn))
+                except Exception as e:  # noqa
+                    ck.case(("mass-roundtrip", nf, n, method, rep), nontrivial=False)
+                    ck.inconclusive(f"msbar_masses.evolve on a wall raised {type(e).__name__}: {str(e)[:80]} (C18's business)")
+                    continue
+                ck.hit("mass_roundtrip_applied")
+                use = [(l, d) for l, d, _, _ in pts if d > 1e-15]
+                key = ("mass-roundtrip", nf, n, method, rep)
+                wit = dict(nf=nf, order=[n, 0], method=method, masses=m.tolist(), ratios=ratios.tolist(), wall_mu2=wall, points=[(l, d, u, w_) for l, d, u, w_ in pts], seed=ck.seed)
+                if pts[0][2] == 1.0 and pts[0][3] == 1.0 and n == 2:
+                    ck.case(key, nontrivial=False)
+                    ck.ok()  # the mass decoupling starts at a_s^2: nothing is applied at NLO
+                    continue
+                if pts[0][2] == 1.0 and pts[0][3] == 1.0:
+                    ck.case(key, nontrivial=False)
+                    ck.violation(f"C22/mass-roundtrip/no-matching/order{n}", "no mass decoupling applied although the matching scale differs from the mass", wit)
+                    continue
+                if len(use) < 3:
+                    ck.case(key, nontrivial=False)
+                    ck.ok()  # exact inverse to rounding: nothing to measure
+                    continue
+                sl = float(np.polyfit(np.log([u[0] for u in use[-3:]]), np.log([u[1] for u in use[-3:]]), 1)[0])
+                ck.case(key, nontrivial=True, sample=dict(kind="mass-roundtrip", nf=nf, order=n, method=method, slope=sl, deviation_at_lambda_1=pts[0][1]))
+                margin = min(margin, sl - n)
+                if sl < n - 0.3:
+                    ck.violation(f"C22/mass-roundtrip/up-down/order{n}", f"MSbar mass across the nf={nf}|{nf + 1} matching scale and back: up x down - 1 scales like a_s^{sl:.2f}, must be beyond the order ({n})", dict(wit, slope=sl))
+                else:
+                    ck.ok()
+    ck.note(worst_expanded_coeff_dev_rel=worst, min_mass_roundtrip_slope_minus_order=None if not np.isfinite(margin) else float(margin))
